@@ -6,8 +6,9 @@ package syncer
 //
 // The real ReplicaLeader.Handle and the real ReplicaFollower steps
 // (protoHandShake, preSync, metaSync, rdbSync, aofSync — driven exactly like
-// ReplicaFollower.Run's state machine) run in-process inside a synctest bubble
-// over two real channels (StoreChannel on t.TempDir() / MemoryChannel). gRPC is
+// ReplicaFollower.Run's state machine) run in-process, in real time (the disk
+// reader sleeps while holding its mutex, which a synctest bubble cannot advance
+// past), over two real channels (StoreChannel on t.TempDir() / MemoryChannel). gRPC is
 // replaced by c16Net: the generated client/server stream interfaces over Go
 // channels, which can cut the transfer after any message and re-chunk CONTINUE
 // messages. One op line per follower session:
@@ -33,7 +34,6 @@ import (
 	"strings"
 	"sync"
 	"testing"
-	"testing/synctest"
 	"time"
 
 	"google.golang.org/grpc"
@@ -340,9 +340,11 @@ func c16Fill(ch Channel, d *c16Data, keepOpen bool) (closeFn func(), err error) 
 		if len(d.Bytes) > 0 {
 			pw.Write(d.Bytes)
 		}
-		synctest.Wait()
-		if w.Right() != d.right() {
-			return closeFn, fmt.Errorf("fill aof: right %d want %d", w.Right(), d.right())
+		// (the writer's own counter runs ahead of the data set's: wait for what readers see)
+		latest := func() int64 { sp, _ := ch.StartPoint(nil); return sp.Offset }
+		c16Wait(func() bool { return latest() == d.right() }, 3*time.Second)
+		if latest() != d.right() {
+			return closeFn, fmt.Errorf("fill aof: right %d want %d", latest(), d.right())
 		}
 		closeFn = func() { w.Close(); pw.Close() }
 		if !keepOpen {
@@ -390,7 +392,18 @@ func c16BuildFollower(bk, dir string, logSize int64, st c16Store) (Channel, erro
 
 var c16ErrRead = errors.New("read")
 
-// read n bytes from the channel's reader at off (with a virtual-time deadline)
+func c16Wait(cond func() bool, max time.Duration) bool {
+	dl := time.Now().Add(max)
+	for !cond() {
+		if time.Now().After(dl) {
+			return false
+		}
+		time.Sleep(100 * time.Microsecond)
+	}
+	return true
+}
+
+// read n bytes from the channel's reader at off (with a deadline)
 func c16ReadAt(ch Channel, id string, off int64, n int) ([]byte, bool, error) {
 	rd, err := ch.NewReader(Offset{RunId: id, Offset: off})
 	if err != nil {
@@ -406,13 +419,12 @@ func c16ReadAt(ch Channel, id string, off int64, n int) ([]byte, bool, error) {
 	}()
 	select {
 	case err = <-res:
-	case <-time.After(5 * time.Second):
+	case <-time.After(3 * time.Second):
 		err = fmt.Errorf("%w: timeout", c16ErrRead)
 	}
 	isAof := rd.IsAof()
 	w.Close(nil)
 	rd.Close()
-	synctest.Wait()
 	return buf, isAof, err
 }
 
@@ -588,6 +600,7 @@ type c16Net struct {
 	aofStart  int64
 	aofBytes  int64
 	everAof   bool
+	fch       Channel
 }
 
 type c16Srv struct {
@@ -651,8 +664,10 @@ func (c *c16Cli) Recv() (*pb.SyncResponse, error) {
 	}
 	n.mu.Unlock()
 	if stop {
-		if n.quiet {
-			synctest.Wait() // the follower has persisted everything it received
+		if n.quiet && n.aofOn && n.aofBytes > 0 {
+			// the follower has persisted everything it received
+			want := n.aofStart + n.aofBytes
+			c16Wait(func() bool { _, r := n.fch.GetOffsetRange(n.fch.RunId()); return r >= want }, time.Second)
 		}
 		n.cancel()
 		return nil, c16ErrCut
@@ -778,11 +793,15 @@ func c16Classify(err error, last *pb.SyncResponse) string {
 	return "other:" + err.Error()
 }
 
+// metaSync rounds per session (the model's `fuel`)
+const c16Fuel = 3
+
 // c16Session runs ReplicaFollower.Run's state machine (states 1..5) once, until
 // the first error, against a freshly built leader channel in state r.L.
 func c16Session(t *testing.T, bk string, logSize int64, fch Channel, r c16Round, rnd *vfutil.Rand) (res c16Result, err error) {
-	lch := c16NewChannel(bk, t.TempDir(), logSize)
-	defer lch.Close()
+	ldir := t.TempDir()
+	lch := c16NewChannel(bk, ldir, logSize)
+	defer func() { lch.Close(); os.RemoveAll(ldir) }()
 	if r.L.Cur != "" {
 		if err = lch.SetRunId(r.L.Cur); err != nil {
 			return
@@ -808,7 +827,7 @@ func c16Session(t *testing.T, bk string, logSize int64, fch Channel, r c16Round,
 	if r.L.D != nil {
 		lright = r.L.D.right()
 	}
-	net := &c16Net{leader: leader, lwait: lwait, ctx: ctx, cancel: cancel, cut: cut, split: r.Split, quiet: r.Quiet, rnd: rnd, lright: lright}
+	net := &c16Net{leader: leader, lwait: lwait, ctx: ctx, cancel: cancel, cut: cut, split: r.Split, quiet: r.Quiet, rnd: rnd, lright: lright, fch: fch}
 	rf := NewReplicaFollower(1, "vf-addr", fch, nil)
 
 	state := 1
@@ -816,6 +835,7 @@ func c16Session(t *testing.T, bk string, logSize int64, fch Channel, r c16Round,
 	var stream pb.ApiService_SyncClient
 	var resp *pb.SyncResponse
 	var serr error
+	metaRounds, fuelOut := 0, false
 loop:
 	for {
 		switch state {
@@ -824,6 +844,11 @@ loop:
 		case 2:
 			followerSp, serr = rf.preSync(leaderSp)
 		case 3:
+			if metaRounds == c16Fuel { // a leader that keeps answering with its snapshot: stop here
+				fuelOut = true
+				break loop
+			}
+			metaRounds++
 			stream, resp, serr = rf.metaSync(followerSp, net)
 			if serr == nil {
 				if resp.GetMeta().GetAof() {
@@ -855,7 +880,6 @@ loop:
 	cancel()
 	rf.wait.Close(nil)
 	lwait.Close(nil)
-	synctest.Wait()
 
 	res.msgs = net.delivered
 	res.stage = map[int]string{1: "hs", 2: "pre", 3: "meta", 4: "rdb", 5: "aof", 6: "end"}[state]
@@ -864,6 +888,9 @@ loop:
 		last = res.msgs[len(res.msgs)-1]
 	}
 	res.cls = c16Classify(serr, last)
+	if fuelOut {
+		res.cls = "fuel"
+	}
 	res.cutModel = cut
 	if net.complete {
 		res.cutModel = len(net.delivered)
@@ -935,7 +962,7 @@ type c16Ctx struct {
 
 func (x *c16Ctx) runCase(t *testing.T, c c16Case, src string) (uncutMsgs []int) {
 	s := x.s
-	synctest.Test(t, func(t *testing.T) {
+	func() {
 		rnd := vfutil.NewRand(c.Seed)
 		dir := t.TempDir()
 		fch, err := c16BuildFollower(c.Bk, dir, c.LogSize, c.F)
@@ -944,7 +971,7 @@ func (x *c16Ctx) runCase(t *testing.T, c c16Case, src string) (uncutMsgs []int) 
 			t.Logf("c16: cannot build follower %s: %v", c.F.String(), err)
 			return
 		}
-		defer func() { fch.Close(); synctest.Wait() }()
+		defer func() { fch.Close(); os.RemoveAll(dir) }()
 		before, problems := c16Observe(c.Bk, fch, dir)
 		if len(problems) > 0 || before.String() != c.F.String() {
 			// the constructed state is not the requested one: not a statement about the follower
@@ -978,7 +1005,7 @@ func (x *c16Ctx) runCase(t *testing.T, c c16Case, src string) (uncutMsgs []int) 
 				}
 				ch = strings.Join(p, ",")
 			}
-			op := fmt.Sprintf("sess %s %s %s %s %d %d", c.Bk, r.L.String(), before.String(), ch, res.cutModel, res.lost)
+			op := fmt.Sprintf("sess %s %s %s %s %d %d %d", c.Bk, r.L.String(), before.String(), ch, res.cutModel, res.lost, c16Fuel)
 			var out []string
 			for _, m := range res.msgs {
 				out = append(out, c16MsgLine(m))
@@ -1027,7 +1054,7 @@ func (x *c16Ctx) runCase(t *testing.T, c c16Case, src string) (uncutMsgs []int) 
 			}
 			before = after
 		}
-	})
+	}()
 	return
 }
 
@@ -1300,7 +1327,7 @@ func TestVerifC16(t *testing.T) {
 	s := vfutil.NewSession("C16")
 	defer s.Close()
 	x := &c16Ctx{s: s}
-	r := vfutil.NewRand(vfutil.Seed())
+	r := vfutil.NewRand(c16Mix(vfutil.Seed())) // (NewRand(s) and NewRand(s+1) are the same stream shifted by one)
 
 	if rp := os.Getenv("VERIF_REPLAY"); rp != "" {
 		if b, err := os.ReadFile(rp); err == nil {
@@ -1324,44 +1351,68 @@ func TestVerifC16(t *testing.T) {
 
 	pairs := vfutil.Scale(70, 700)
 	maxCuts := vfutil.Scale(6, 40)
-	for i := 0; i < pairs; i++ {
-		c := c16GenCase(r)
-		ms := x.runCase(t, c, "gen")
-		if len(ms) == 0 {
-			continue
-		}
-		m := ms[0]
-		// cut after every message (all of them when few, a sample otherwise)
-		var cuts []int
-		for k := 0; k < m; k++ {
-			cuts = append(cuts, k)
-		}
-		for len(cuts) > maxCuts {
-			j := r.Intn(len(cuts))
-			cuts = append(cuts[:j], cuts[j+1:]...)
-		}
-		for _, k := range cuts {
-			cc := c
-			r0 := c.Rounds[0]
-			r0.Cut = k
-			r0.Quiet = !r.Chance(1, 4)
-			cc.Rounds = []c16Round{r0}
-			// … and resynchronise afterwards against a later state of the leader
-			if r.Chance(1, 2) {
-				l2 := c16Evolve(r, r0.L)
-				r1 := c16Round{L: l2, Cut: -1, Quiet: true, Restart: r.Chance(1, 5)}
-				if r.Chance(1, 3) {
-					r1.Cut = r.Intn(6)
-				}
-				if r.Chance(1, 4) {
-					r1.Split = vfutil.Pick(r, []int{2, 50})
-				}
-				cc.Rounds = append(cc.Rounds, r1)
-				if r.Chance(1, 3) {
-					cc.Rounds = append(cc.Rounds, c16Round{L: c16Evolve(r, l2), Cut: -1, Quiet: true})
-				}
+	// every family (one generated pair + its cuts + later leader states) draws from its
+	// own fork of the seed; families run concurrently (a CLEAR answer makes the real
+	// follower sleep one second)
+	type job struct {
+		c c16Case
+		r *vfutil.Rand
+	}
+	jobs := make(chan job)
+	var wg sync.WaitGroup
+	for w := 0; w < 12; w++ {
+		wg.Add(1)
+		go func() {
+			defer wg.Done()
+			for j := range jobs {
+				x.family(t, j.c, j.r, maxCuts)
 			}
-			x.runCase(t, cc, "cut")
+		}()
+	}
+	for i := 0; i < pairs; i++ {
+		fr := r.Fork()
+		jobs <- job{c16GenCase(fr), fr}
+	}
+	close(jobs)
+	wg.Wait()
+}
+
+func (x *c16Ctx) family(t *testing.T, c c16Case, r *vfutil.Rand, maxCuts int) {
+	ms := x.runCase(t, c, "gen")
+	if len(ms) == 0 {
+		return
+	}
+	m := ms[0]
+	// cut after every message (all of them when few, a sample otherwise)
+	var cuts []int
+	for k := 0; k < m; k++ {
+		cuts = append(cuts, k)
+	}
+	for len(cuts) > maxCuts {
+		j := r.Intn(len(cuts))
+		cuts = append(cuts[:j], cuts[j+1:]...)
+	}
+	for _, k := range cuts {
+		cc := c
+		r0 := c.Rounds[0]
+		r0.Cut = k
+		r0.Quiet = !r.Chance(1, 4)
+		cc.Rounds = []c16Round{r0}
+		// … and resynchronise afterwards against a later state of the leader
+		if r.Chance(1, 2) {
+			l2 := c16Evolve(r, r0.L)
+			r1 := c16Round{L: l2, Cut: -1, Quiet: true, Restart: r.Chance(1, 5)}
+			if r.Chance(1, 3) {
+				r1.Cut = r.Intn(6)
+			}
+			if r.Chance(1, 4) {
+				r1.Split = vfutil.Pick(r, []int{2, 50})
+			}
+			cc.Rounds = append(cc.Rounds, r1)
+			if r.Chance(1, 3) {
+				cc.Rounds = append(cc.Rounds, c16Round{L: c16Evolve(r, l2), Cut: -1, Quiet: true})
+			}
 		}
+		x.runCase(t, cc, "cut")
 	}
 }
